@@ -321,7 +321,7 @@ def f_xthread(cal, where, sp, a, b, again_sp):
     meanwhile the other thread's own call with the same arguments is a different execution (the thread is part
     of the key)"""
     import threading
-    calv, wv, spv, av, bv, asv = conc(cal, 4), conc(where, 3), conc(sp, 5), conc(a, 2), conc(b, 2), conc(again_sp, 5)
+    calv, wv, spv, av, bv, asv = conc(cal, 4), conc(where, 4), conc(sp, 5), conc(a, 2), conc(b, 2), conc(again_sp, 5)
     rec.clear_fail()
     prog.reset_globals()
     count = {}
@@ -369,6 +369,32 @@ def f_xthread(cal, where, sp, a, b, again_sp):
         return r[1]
 
     try:
+        if wv == 3:
+            # the call is created on a short-lived thread that ends without ever driving it; a thread started
+            # afterwards (the OS is free to hand it the dead thread's identifier) makes the same call: the thread
+            # is part of the key, so it gets an execution of its own.  A few rounds, since identifier reuse is
+            # at the OS's discretion.
+            made = {}
+
+            def creator():
+                made["t"] = spell(fn.asynq, spv, av, bv, 2)
+
+            def later():
+                t2 = spell(fn.asynq, spv, av, bv, 2)
+                return t2, t2.value()
+            for rnd in range(6):
+                on_thread(creator)
+                before = count.get(key, 0)
+                t2, v2 = on_thread(later)
+                if t2 is made["t"]:
+                    return rec.fail("a call made on a new thread received the in-flight task that an earlier, finished "
+                                    "thread had created for key %r (round %d)" % (key, rnd))
+                if v2 != [tag, av, bv, 2] or count.get(key, 0) != before + 1:
+                    return rec.fail("call on a new thread after an abandoned call of a finished thread: value %r, body "
+                                    "runs %d for key %r" % (v2, count.get(key, 0) - before, key))
+            rec.wit("paths")
+            rec.done(("c12xt", calv, wv, spv, av, bv, asv), True)
+            return True
         t = spell(fn.asynq, spv, av, bv, 2)
         if wv == 0:
             v = t.value()
@@ -452,10 +478,11 @@ def conds(tier):
                                              I("kk", 0, 1), I("a", 0, 1), I("p0"), I("p1")], pin=2, builds=("C", "P"),
                     budget=100, family="the only execution ends abnormally (a context of the body fails to resume "
                     "after a flush; closing the suspended body may raise too): key free afterwards", encodes=ENC))
-    out.append(Cond("xthread", f_xthread, [I("cal", 0, 3), I("where", 0, 2), I("sp", 0, 4), I("a", 0, 1), I("b", 0, 1),
+    out.append(Cond("xthread", f_xthread, [I("cal", 0, 3), I("where", 0, 3), I("sp", 0, 4), I("a", 0, 1), I("b", 0, 1),
                                            I("again_sp", 0, 4)], pin=2, builds=("C",), budget=100,
                     family="task created on one thread, completed on the same / another thread (which may make its own "
-                           "call with the same arguments first): key free afterwards", encodes=ENC))
+                           "call with the same arguments first): key free afterwards; or created on a thread that ends "
+                           "without driving it, then the same call on a later thread (thread identifiers may be reused)", encodes=ENC))
     if not q:
         ps = [I("cal0", 0, 1), I("sp0", 0, 1), I("a0", 1, 1), I("b0", 1, 1), I("c0", 0, 0), I("dl0", 0, 2), B("dirty0")]
         for i in (1, 2):
